@@ -48,6 +48,10 @@ func runC16(c *Ctx) {
 		okShape := false
 		repl := ""
 		pre := `((GenerateSpecName($0,$1) + "_") + strings.ReplaceAll($2,"/",`
+		// GenerateSpecName written out in place is the same name
+		if in := strings.Replace(pre, "GenerateSpecName($0,$1)", `(($0 + "-") + $1)`, 1); strings.HasPrefix(got, in) {
+			pre = in
+		}
 		if strings.HasPrefix(got, pre) && strings.HasSuffix(got, "))") {
 			repl = strings.Trim(strings.TrimSuffix(strings.TrimPrefix(got, pre), "))"), `"`)
 			okShape = !strings.ContainsAny(repl, `/\`) && strings.Count(got, "$2") == 1
@@ -138,29 +142,61 @@ func runC16(c *Ctx) {
 		r.Check("C16.5", "remove-single-target", nRemove == 1, c.U.Pos(rs.Pos()), fmt.Sprintf("RemoveSpec removes exactly one file (%d removal calls)", nRemove))
 		c16ExtCondition(c, rs, "remove")
 		c16NoDirs(c, rs, "remove")
-		// C16.4
-		okTol, okOther := false, false
-		for _, er := range c.exprReturns(rs) {
-			res := er.results[0]
-			if strings.HasPrefix(res, "phi(nil|os.Remove(") || strings.HasPrefix(res, "phi(os.Remove(") {
-				// which edge carries nil: guarded by errors.Is(err, fs.ErrNotExist)
-				if phi, ok := ir.ReturnResult(er.ret, 0).(*ssa.Phi); ok {
-					for k, ed := range phi.Edges {
-						gs := c.edgeGuards(rs, phi.Block().Preds[k], phi.Block())
-						if ir.IsNilConst(ed) {
-							for _, g := range gs {
-								if strings.HasPrefix(g, "errors.Is(") && strings.Contains(g, "ErrNotExist") {
-									okTol = true
-								}
-							}
-						} else {
-							okOther = true
-						}
+		// C16.4: every way out after the removal, per incoming edge of the returning block
+		okTol, okOther, bad := false, false, ""
+		rmVal, _ := call.(ssa.Value)
+		for _, ret := range ir.NormalReturns(rs) {
+			if call == nil || !ir.Dominates(call.Block(), ret.Block()) {
+				continue
+			}
+			type alt struct {
+				v  ssa.Value
+				gs []string
+			}
+			var alts []alt
+			res := ir.ReturnResult(ret, 0)
+			b := ret.Block()
+			if len(b.Preds) >= 2 && b != call.Block() {
+				for k, p := range b.Preds {
+					v := res
+					if phi, ok := res.(*ssa.Phi); ok && phi.Block() == b {
+						v = phi.Edges[k]
 					}
+					alts = append(alts, alt{v, c.edgeGuards(rs, p, b)})
+				}
+			} else {
+				alts = append(alts, alt{res, c.guardsOf(rs, ret)})
+			}
+			for _, a := range alts {
+				isNotExist, errNil := false, false
+				for _, g := range a.gs {
+					if strings.HasPrefix(g, "errors.Is(") && strings.Contains(g, "ErrNotExist") {
+						isNotExist = true
+					}
+					if strings.HasPrefix(g, "nil(") && strings.Contains(g, "os.Remove") {
+						errNil = true
+					}
+				}
+				switch {
+				case ir.IsNilConst(a.v):
+					if isNotExist {
+						okTol = true
+					} else if !errNil {
+						bad += fmt.Sprintf(" nil returned under %v;", a.gs)
+					}
+				case a.v == rmVal:
+					if isNotExist {
+						bad += " the 'does not exist' error is returned;"
+					} else {
+						okOther = true
+					}
+				default:
+					bad += " returns " + c.valueDesc(a.v) + ";"
 				}
 			}
 		}
-		r.Check("C16.4", "enoent", okTol && okOther, c.U.Pos(rs.Pos()), "RemoveSpec returns nil exactly for 'does not exist', the removal error otherwise")
+		okTol = okTol && bad == ""
+		r.Check("C16.4", "enoent", okTol && okOther, c.U.Pos(rs.Pos()), "RemoveSpec returns nil exactly for 'does not exist', the removal error otherwise"+bad)
 	}
 	if wPath != "" && rPath != "" {
 		r.Check("C16.2", "same-path", strings.ReplaceAll(wPath, "$2", "$N") == strings.ReplaceAll(rPath, "$1", "$N"), "", "WriteSpec and RemoveSpec address the same file for the same name")
